@@ -23,14 +23,14 @@ def runFw (cases : List CaseBlock) : IO Unit := do
       -- without a value for that draw: the comparison ends before that call; the monitors below
       -- still see the whole trace (C01 reports the panic)
       let isExt : CallRec → Bool := fun c => match c.res with
-        | .panic cls => cls.startsWith "ext:"
+        | .panic cls => cls.startsWith "ext:" || cls.startsWith "hang"
         | _ => false
       let nKeep := (p.trace.calls.takeWhile (fun c => !isExt c)).length
       let pc : FwCaseParsed := { p with trace := { p.trace with calls := p.trace.calls.take nKeep },
                                         orcCalls := p.orcCalls.take nKeep }
       let (model, starved) := modelRun pc (Validate.frameworkNew p.trace.machines p.trace.fp p.trace.fb)
       let newExt := match p.trace.newRes with
-        | .panic cls => cls.startsWith "ext:"
+        | .panic cls => cls.startsWith "ext:" || cls.startsWith "hang"
         | _ => false
       let ds := if newExt then [] else diffTrace pc.trace model
       let ds := if starved && !newExt then ds ++ [(0, ["oracle"])] else ds
